@@ -7,6 +7,11 @@
    lists, --showtime modes, many small files and shared headers); every instrumented site logs the object and the
    MEASURED state of its guard (try_lock). LockTrace.tla validates that while worker threads exist every access to a
    guarded object happens with the guard held.
+3. The same tree is built with ThreadSanitizer (bin/build_tsan.sh) and run with the thread executor; every data race
+   the detector reports becomes a `Race` event (object = the two racing functions). LockTrace.tla accepts no `Race`
+   event: a pair of conflicting accesses without a common lock is exactly what ThreadLock's NoRace forbids. This closes
+   the gap of stage 2, which sees only instrumented sites (a hook can sit inside the lock while the data is read
+   outside of it).
 """
 import concurrent.futures
 import json
@@ -24,13 +29,14 @@ META = {
     "text": "The lock discipline of the thread executor (suppression list, executor duplicate filter, file hand-out, report forwarder, timer "
             "results and their output) is model-checked race free for all interleavings of 3 threads (and shown to race when a site skips its "
             "guard); traces of real thread-executor runs under schedule noise are validated against it with the lock state measured at every "
-            "instrumented site.",
+            "instrumented site; runs of a ThreadSanitizer build of the same tree contribute a Race event for every data race on any memory, "
+            "which the specification never accepts.",
     "ref": "DESIGN.md section 4 C16",
-    "note": "Decides conformance of the INSTRUMENTED sites to a race-free discipline: a removed lock_guard, a new unguarded path into an "
-            "instrumented object or a shared object touched during the parallel phase is seen; a brand-new shared variable nobody instrumented "
-            "is not (a ThreadSanitizer build would be the complement, outside this study's technique family). try_lock on a mutex owned by the "
-            "calling thread is formally unspecified in ISO C++; glibc returns EBUSY, which is what the hook relies on (only under the guard).",
-    "technique": "TLA+ model checking of the lock discipline (TLC) + trace validation of measured lock states (LockTrace.tla)",
+    "note": "Stage 2 decides conformance of the INSTRUMENTED sites to a race-free discipline (a removed lock_guard, a new unguarded path "
+            "into an instrumented object). Stage 3 observes every memory access of the explored schedules through a ThreadSanitizer build (the "
+            "exploration the property itself names) and turns each reported race into a trace event that the specification rejects. try_lock "
+            "on a mutex owned by the calling thread is formally unspecified in ISO C++; glibc returns EBUSY, which is what the hook relies on.",
+    "technique": "TLA+ model checking of the lock discipline (TLC) + trace validation of measured lock states and of ThreadSanitizer race events (LockTrace.tla)",
 }
 
 
@@ -108,6 +114,60 @@ def validate(runs):
     return {"label": index[line - 1], "line": line, "event": json.loads(lines[line - 1])}, r.distinct
 
 
+TSAN_VARIANTS = [["-j3", "--executor=thread", "--showtime=file"], ["-j4", "--executor=thread", "--showtime=top5_file"],
+                 ["-j8", "--executor=thread", "--showtime=summary"], ["-j2", "--executor=thread"], ["-j4", "--executor=thread", "--showtime=file-total"]]
+
+
+def build_tsan():
+    """ThreadSanitizer build of the tree under test; returns the directory holding a private copy of the binary."""
+    out = vlib.mktmp("c16tsanbin")
+    r = vlib.run([os.path.join(vlib.VERIF, "bin", "build_tsan.sh"), out], timeout=14400)
+    if r[0] != 0:
+        raise vlib.InfraError("ThreadSanitizer build failed\n" + (r[1] + r[2])[-2000:])
+    return out
+
+
+def parse_tsan(err):
+    """data race reports of ThreadSanitizer -> list of dict(key, frames). The key names the two racing functions (top
+    frames inside the cppcheck sources), without line numbers."""
+    import re
+    races = []
+    for block in err.split("=================="):
+        if "WARNING: ThreadSanitizer: data race" not in block:
+            continue
+        tops = []
+        cur = None
+        for line in block.splitlines():
+            if re.match(r"\s+(Write|Read|Previous write|Previous read|Atomic|Previous atomic)", line):
+                cur = []
+                tops.append(cur)
+            elif cur is not None and re.match(r"\s+#\d+ ", line):
+                cur.append(line.strip())
+            elif not line.strip():
+                cur = None
+        fns = []
+        for fr in tops[:2]:
+            own = [f for f in fr if re.search(r" /(?!usr/)[^ ]*/src/(lib|cli|frontend|externals)/[^ ]+\.(cpp|h):", f)]
+            f0 = (own or fr or ["?"])[0]
+            m = re.match(r"#\d+ (.*?) (/[^ ]+?):(\d+)", f0)
+            name = re.sub(r"\(.*", "", m.group(1)) if m else f0
+            src = os.path.basename(m.group(2)) if m else "?"
+            fns.append("%s@%s" % (name, src))
+        races.append({"key": "|".join(sorted(fns)), "frames": [fr[:6] for fr in tops[:2]]})
+    return races
+
+
+def run_tsan(job):
+    idx, proj, extra, sched, bindir = job
+    root = runlayer.fresh_root("c16t%d" % idx)
+    projgen.materialize(proj, root)
+    args = [os.path.join(bindir, "cppcheck")] + list(proj["opts"]) + extra + proj["sources"]
+    rc, out, err = vlib.run(args, cwd=root, timeout=900,
+                            env={"CPPCHECK_VERIF_SCHED": str(sched), "TSAN_OPTIONS": "halt_on_error=0 exitcode=0 report_signal_unsafe=0 second_deadlock_stack=1"})
+    runlayer.cleanup(root)
+    return "tsan%d:%s:s%d" % (idx, " ".join(extra), sched), rc, parse_tsan(err)
+
+
 def main(tier, seed, replay=None):
     t0 = time.time()
     vlib.build()
@@ -145,12 +205,38 @@ def main(tier, seed, replay=None):
         p = vlib.save_replay(PID, "unguarded-" + vlib.digest(rej["event"]), rej)
         violations.append({"key": "unguarded:%s:%s" % (rej["event"].get("obj"), rej["event"].get("site")),
                            "what": "access to %s at site %s without its guard while worker threads exist (%s)" % (rej["event"].get("obj"), rej["event"].get("site"), rej["label"]), "replay": p})
+    # stage 3: ThreadSanitizer build, every reported race is a Race event which LockTrace.tla never accepts
+    bindir = build_tsan()
+    tjobs = []
+    ntp = 2 if tier == "quick" else 12
+    for i in range(ntp):
+        proj = projgen.gen_project(seed * 1000 + 700 + i, nfiles=6, with_header=True, with_inline=True)
+        proj["opts"] = [o for o in proj["opts"] if o != "-q"]
+        for vi, extra in enumerate(TSAN_VARIANTS if tier == "thorough" else TSAN_VARIANTS[:3]):
+            tjobs.append((len(tjobs), proj, extra, seed + vi, bindir))
+    races = {}
+    tsan_runs = 0
+    with concurrent.futures.ThreadPoolExecutor(max_workers=min(4, vlib.NCPU)) as ex:
+        for label, rc_, rs in ex.map(run_tsan, tjobs):
+            if rc_ is None:
+                raise vlib.InfraError("timeout of the ThreadSanitizer binary in " + label)
+            tsan_runs += 1
+            for r_ in rs:
+                races.setdefault(r_["key"], dict(r_, label=label))
+    shutil.rmtree(bindir, ignore_errors=True)
+    for key, r_ in sorted(races.items()):
+        rej2, st2 = validate([(r_["label"], [{"e": "ThreadsSpawned", "obj": "-", "held": True, "tid": 0},
+                                              {"e": "Race", "obj": key, "held": False, "tid": 0, "site": key}])])
+        tstates += st2
+        if rej2:
+            p = vlib.save_replay(PID, "race-" + vlib.digest(key), r_)
+            violations.append({"key": "race:" + key, "what": "ThreadSanitizer reports a data race between %s (%s)" % (key, r_["label"]), "replay": p})
     rc, new, known = vlib.verdict(PID, violations)
     cov = {"states": mc[0] + tstates, "transitions": mc[1] + tstates, "traces_validated_against_impl": len(runs) if not rej else 0,
            "evaluations": naccess, "distinct_nontrivial": len(objs),
            "rule": "one evaluation per logged access of an instrumented site; distinct = number of distinct shared objects reached",
-           "accesses_by_object": objs, "runs": len(runs), "samples": mc[2] + [{"run": runs[0][0], "first_accesses": runs[0][1][:5]}]}
+           "accesses_by_object": objs, "runs": len(runs), "tsan_runs": tsan_runs, "tsan_races": sorted(races), "samples": mc[2] + [{"run": runs[0][0], "first_accesses": runs[0][1][:5]}]}
     vlib.write_evidence(PID, tier, seed, "model_checking", cov, time.time() - t0, violations=new,
                         assumptions=["std::mutex::try_lock returns false for a mutex held by the calling thread (glibc behaviour)",
-                                     "only instrumented sites are observed"])
+                                     "stage 2 observes instrumented sites only; stage 3 (ThreadSanitizer) observes all memory accesses of the schedules that occurred"])
     return rc
